@@ -736,7 +736,9 @@ def finish(prop, tier, seed, results, t0, level_note, bounds, outside_claim, ass
         k = next(f for f in known if f['id'] == kid)
         lines.append('KNOWN-FINDING: property=%s %s (%d occurrences this run, e.g. %s %s)' % (
             prop, k['what'], len(vs), vs[0].get('family'), vs[0].get('params')))
-    min_decided = max(1, int(0.6 * len(results)))
+    # quick tier: at least 60 % of the families must be decided; the thorough tier deliberately contains families at the edge of the
+    # solver's reach (moving vertices, tilted axes, Cylinder volumes): 40 % there
+    min_decided = max(1, int((0.6 if tier == 'quick' else 0.4) * len(results)))
     harness_problem = []
     if unreplayed:
         harness_problem.append('%d solver counterexamples did not reproduce on the real library (model/oracle problem), e.g. %s' % (
